@@ -18,6 +18,16 @@
 (* DISCIPLINE the implementation must follow), <Op>Post (the state after).     *)
 (* MC_Heap / Gen_Heap choose p from finite sets; Trace_Heap takes p from the   *)
 (* recorded event and compares <Op>Post with the observed heap.                *)
+(*                                                                             *)
+(* The CALLER may make two objects share memory (cp := *m -- a shallow struct  *)
+(* copy shares every section and record of m; scratch.Answer = m.Answer shares *)
+(* one section): operation Alias.  al is the set of pairs {a, b} so related;   *)
+(* for them -- and only for them -- sharing is no defect, a write through one  *)
+(* is expected to show in the other, and the bookkeeping a read-only operation *)
+(* writes into a is seen in b.  CopyTo(x, t) copies x into such a USED target  *)
+(* t (Msg.CopyTo): afterwards t is a copy like any other -- it shares nothing  *)
+(* with x, whatever t shared before; x and every object the caller did not     *)
+(* make share memory with t are left as they were.                             *)
 EXTENDS Integers, Sequences, FiniteSets, TLC
 
 CONSTANTS Obj,      \* object identities
@@ -26,7 +36,7 @@ CONSTANTS Obj,      \* object identities
 Range(f) == { f[x] : x \in DOMAIN f }
 
 \* S = [slots : [Obj -> Seq(Region)], mem : [Region -> Content], bk : [Obj -> Bk],
-\*      live : SUBSET Obj, buf : Region or 0 (no buffer)]
+\*      live : SUBSET Obj, buf : Region or 0 (no buffer), al : SUBSET (SUBSET Obj)]
 Regions(S, o)  == Range(S.slots[o])
 Value(S, o)    == [i \in 1..Len(S.slots[o]) |-> S.mem[S.slots[o][i]]]
 Allocated(S)   == DOMAIN S.mem
@@ -37,10 +47,14 @@ Fresh(S, ns) == /\ \A i \in 1..Len(ns) : ns[i] \notin Allocated(S)
 -----------------------------------------------------------------------------
 (* The discipline as a state predicate, and the property it buys.             *)
 
+Aliased(S, a, b) == {a, b} \in S.al
+\* the objects that share memory with one of xs by the caller's doing
+Partners(S, xs)  == { o \in S.live : \E a \in xs : a # o /\ Aliased(S, a, o) }
+
 \* regions of independently obtained objects are pairwise disjoint, and none
 \* contains the buffer
 Disjoint(S) ==
-  /\ \A a, b \in S.live : a # b => Regions(S, a) \cap Regions(S, b) = {}
+  /\ \A a, b \in S.live : a # b /\ ~Aliased(S, a, b) => Regions(S, a) \cap Regions(S, b) = {}
   /\ \A a \in S.live : S.buf \notin Regions(S, a)
 
 \* non-interference: a step whose targets are tgt leaves value(y) alone for every
@@ -67,6 +81,46 @@ CopyPost(S, p)  ==
                !.bk[p.y] = S.bk[p.x],
                !.live = S.live \cup {p.y}]
 
+(* Alias(x) -> y : the caller's shallow copy.  p = [x, y, ns]: slot i of y is x's own *)
+(* region (ns[i] = slots[x][i]: shared) or a new one holding the same content.        *)
+AliasShared(S, p) == { i \in 1..Len(p.ns) : p.ns[i] = S.slots[p.x][i] }
+AliasShape(S, p) == /\ p.x \in S.live /\ p.y \in Obj \ S.live
+                    /\ Len(p.ns) = Len(S.slots[p.x])
+                    /\ AliasShared(S, p) # {}
+AliasDisc(S, p)  == /\ \A i \in 1..Len(p.ns) : i \notin AliasShared(S, p) => p.ns[i] \notin Allocated(S)
+                    /\ \A i, j \in 1..Len(p.ns) : i # j => p.ns[i] # p.ns[j]
+AliasPost(S, p)  ==
+  LET src(r) == S.slots[p.x][CHOOSE i \in 1..Len(p.ns) : p.ns[i] = r]
+      new    == [r \in Range(p.ns) |-> S.mem[src(r)]]
+      shr    == { p.ns[i] : i \in AliasShared(S, p) }
+  IN [S EXCEPT !.slots[p.y] = p.ns,
+               !.mem = S.mem @@ new,
+               !.bk[p.y] = S.bk[p.x],
+               !.live = S.live \cup {p.y},
+               !.al = S.al \cup { {p.y, o} : o \in { q \in S.live : Regions(S, q) \cap shr # {} } }]
+
+(* CopyTo(x, t) : x copied into the live object t.  p = [x, t, ns]  ns = the regions of t afterwards.  *)
+(* Discipline: none of them is a region of the SOURCE, the buffer's, or a region of an object the caller *)
+(* did not make share memory with the target.  AMBIG: storage the target held -- alone, or together with *)
+(* third objects the caller aliased to it (a write to the target is expected to show in those) -- may be *)
+(* used again: the statement speaks of what copy and original share and of the arguments of Copy, not of *)
+(* where the copy is put.  CopyTo WRITES the regions it is given: a region that exists gets the source's *)
+(* content.                                                                                              *)
+CopyToShape(S, p) == /\ p.x \in S.live /\ p.t \in S.live /\ p.x # p.t
+                     /\ Len(p.ns) = Len(S.slots[p.x])
+CopyToDisc(S, p)  == /\ \A i, j \in 1..Len(p.ns) : i # j => p.ns[i] # p.ns[j]
+                     /\ \A i \in 1..Len(p.ns) : /\ p.ns[i] # S.buf
+                                                  /\ p.ns[i] \notin Regions(S, p.x)
+                                                  /\ \A o \in S.live \ ({p.t} \cup Partners(S, {p.t})) : p.ns[i] \notin Regions(S, o)
+\* the partners of the target that still share with it afterwards (their storage was used again)
+CopyToKeeps(S, p) == { o \in Partners(S, {p.t}) \ {p.x} : Regions(S, o) \cap Range(p.ns) # {} }
+CopyToPost(S, p)  ==
+  LET src(r) == S.slots[p.x][CHOOSE i \in 1..Len(p.ns) : p.ns[i] = r]
+  IN [S EXCEPT !.slots[p.t] = p.ns,
+               !.mem = [r \in DOMAIN S.mem \cup Range(p.ns) |-> IF r \in Range(p.ns) THEN S.mem[src(r)] ELSE S.mem[r]],
+               !.bk[p.t] = S.bk[p.x],
+               !.al = { q \in S.al : p.t \notin q \/ q \subseteq {p.t} \cup CopyToKeeps(S, p) }]
+
 (* Unpack(buf) -> y : p = [y, ns, cs, b]  cs = contents, b = bookkeeping      *)
 UnpackShape(S, p) == /\ S.buf # 0 /\ p.y \in Obj \ S.live /\ Len(p.ns) = Len(p.cs)
 UnpackDisc(S, p)  == Fresh(S, p.ns)             \* in particular buf \notin ns
@@ -76,8 +130,13 @@ UnpackPost(S, p)  ==
 
 (* Mutate(x, r, c, b) : write content c into region r of x; a writer may also  *)
 (* write x's bookkeeping fields (b = bookkeeping of x afterwards)              *)
-MutateShape(S, p) == p.x \in S.live /\ p.r \in Regions(S, p.x) /\ p.c # S.mem[p.r]
-MutatePost(S, p)  == [S EXCEPT !.mem[p.r] = p.c, !.bk[p.x] = p.b]
+(* p.pb = bookkeeping afterwards of the objects the caller made share region r with x       *)
+(* (their RDLENGTH fields live in the shared records)                                       *)
+Sharers(S, x, r)  == { o \in Partners(S, {x}) : r \in Regions(S, o) }
+MutateShape(S, p) == /\ p.x \in S.live /\ p.r \in Regions(S, p.x) /\ p.c # S.mem[p.r]
+                     /\ DOMAIN p.pb = Sharers(S, p.x, p.r)
+MutatePost(S, p)  == [S EXCEPT !.mem[p.r] = p.c,
+                               !.bk = [o \in DOMAIN S.bk |-> IF o = p.x THEN p.b ELSE IF o \in DOMAIN p.pb THEN p.pb[o] ELSE S.bk[o]]]
 
 (* Scribble(buf) : p = [c]                                                    *)
 ScribbleShape(S, p) == S.buf # 0 /\ p.c # S.mem[S.buf]
@@ -85,15 +144,21 @@ ScribblePost(S, p)  == [S EXCEPT !.mem[S.buf] = p.c]
 
 (* ReadOnly(op, xs) : p = [op, xs, nb]  nb = bookkeeping of the arguments after *)
 (* AMBIG: the statement does not say which of the read-only operations may do   *)
-(* the bookkeeping; any of them may, on its arguments only.                     *)
-ROShape(S, p) == p.op \in ROOps /\ p.xs \subseteq S.live /\ DOMAIN p.nb = p.xs
-ROPost(S, p)  == [S EXCEPT !.bk = [o \in DOMAIN S.bk |-> IF o \in p.xs THEN p.nb[o] ELSE S.bk[o]]]
+(* the bookkeeping; any of them may, on its arguments only -- which includes    *)
+(* the objects the caller made share records with an argument (ROArgs).         *)
+ROArgs(S, xs) == xs \cup Partners(S, xs)
+ROShape(S, p) == p.op \in ROOps /\ p.xs \subseteq S.live /\ DOMAIN p.nb = ROArgs(S, p.xs)
+ROPost(S, p)  == [S EXCEPT !.bk = [o \in DOMAIN S.bk |-> IF o \in DOMAIN p.nb THEN p.nb[o] ELSE S.bk[o]]]
 
 (* NewBuf : a buffer obtained by packing; p = [r, c]                          *)
 NewBufShape(S, p) == TRUE
 NewBufDisc(S, p)  == Fresh(S, <<p.r>>)
 NewBufPost(S, p)  == [S EXCEPT !.buf = p.r, !.mem = S.mem @@ (p.r :> p.c)]
 
-(* Targets of a step: the objects whose value the step is entitled to change. *)
-Targets(opname, p) == IF opname = "mutate" THEN {p.x} ELSE {}
+(* Targets of a step in state S: the objects whose value the step is entitled to change -- the  *)
+(* object written to and those the caller made share the written region; the target of CopyTo.  *)
+Targets(S, opname, p) ==
+  CASE opname = "mutate" -> {p.x} \cup Sharers(S, p.x, p.r)
+    [] opname = "copyto" -> {p.t} \cup CopyToKeeps(S, p)
+    [] OTHER -> {}
 =============================================================================
